@@ -8,12 +8,14 @@ def main():
     mod = a.pop(0)
     cbmc = []
     timeout = 900
+    us = None
     while a and a[0].startswith("--"):
         if a[0] == "--args": cbmc = a[1].split(); a = a[2:]
         elif a[0] == "--timeout": timeout = int(a[1]); a = a[2:]
+        elif a[0] == "--unwindset": us = dict(x.split("=") for x in a[1].split(",")); a = a[2:]
     inv = {v: k for k, v in runner.OVERLAY.items()}
     modpath = inv[mod][:-3].replace("/", "::")
-    obls = [{"id": h, "engine": "kani", "module": mod, "harness": f"{modpath}::verif_kani::{h}", "cbmc_args": cbmc, "timeout_s": timeout} for h in a]
+    obls = [{"id": h, "engine": "kani", "module": mod, "harness": f"{modpath}::verif_kani::{h}", "cbmc_args": cbmc, "timeout_s": timeout, **({"unwindset": {k: int(v) for k, v in us.items()}} if us else {})} for h in a]
     key = runner.tree_key()
     sc = runner.Scratch(key, [mod])
     sc.prepare()
